@@ -389,6 +389,23 @@ pub fn product_candidates(ws: &[f32]) -> Option<Vec<u32>> {
         v.dedup();
         res[mask] = v;
     }
+    // an implementation may also accumulate in f64 (any order) and narrow once at the end
+    {
+        let mut idx: Vec<usize> = (0..n).collect();
+        fn perms(k: usize, idx: &mut Vec<usize>, ws: &[f32], out: &mut Vec<u32>) {
+            if k == idx.len() {
+                let p = idx.iter().fold(1.0f64, |a, i| a * ws[*i] as f64);
+                out.push((p as f32).to_bits());
+                return;
+            }
+            for i in k..idx.len() {
+                idx.swap(k, i);
+                perms(k + 1, idx, ws, out);
+                idx.swap(k, i);
+            }
+        }
+        perms(0, &mut idx, ws, &mut out);
+    }
     if n == 0 {
         out.push(1.0f32.to_bits());
     } else {
